@@ -1,5 +1,5 @@
 #!/usr/bin/env bash
-# tools/confirm_seed.sh <worktree> <ID> <k>
+# tools/confirm_seed.sh <worktree> <ID> <k>   (DEMO_FEATURES="--features encryption" for demonstrations behind a cargo feature)
 # Confirms a sub-agent's seeded mutation in its scratch worktree: patch applies, builds, the existing
 # suite still passes, the demonstration fails with the patch and passes without. Writes
 # /verif/seeded/<ID>-<k>/{patch.diff,demo.rs,notes.md,confirm.log} when all of that holds.
@@ -16,14 +16,14 @@ if git diff --quiet -- . ':!out' ; then :; fi
 if grep -qE '^\+\+\+ b/(tests|Cargo|benches|examples)' "$SRC/patch.diff"; then say "RESULT $ID/$K patch-touches-non-src"; exit 1; fi
 cp "$SRC/demo.rs" "tests/seeded_${ID}_${K}.rs"
 # 1. demo on the clean tree
-if ! cargo test --offline -j 8 --test "seeded_${ID}_${K}" >> "$LOG" 2>&1; then say "RESULT $ID/$K demo-fails-on-clean-tree"; exit 1; fi
+if ! cargo test --offline -j 8 ${DEMO_FEATURES:-} --test "seeded_${ID}_${K}" >> "$LOG" 2>&1; then say "RESULT $ID/$K demo-fails-on-clean-tree"; exit 1; fi
 # 2. with the patch: suite + demo
 git apply "$SRC/patch.diff"
 cargo test --workspace --no-fail-fast --offline -j 8 > "$WT/out/$K/suite_confirm.log" 2>&1
 # failing tests per test binary (sections start with "Running <target>"); the demo's own binary is expected to fail
 failed=$(awk '/^ +Running /{bin=$2; if ($2=="unittests") bin="--lib"; else {sub(/^tests\//,"",bin); sub(/\.rs$/,"",bin); bin="--test=" bin}} /^ +Doc-tests/{bin="--doc"} /^test .* \.\.\. FAILED/{print bin "|" $2}' "$WT/out/$K/suite_confirm.log" | grep -v 'seeded_' | sort -u)
 demo_failed=0
-if cargo test --offline -j 8 --test "seeded_${ID}_${K}" >> "$LOG" 2>&1; then demo_failed=0; else demo_failed=1; fi
+if cargo test --offline -j 8 ${DEMO_FEATURES:-} --test "seeded_${ID}_${K}" >> "$LOG" 2>&1; then demo_failed=0; else demo_failed=1; fi
 # retry non-demo failures alone (timing tests under load)
 real_fail=""
 for t in $failed; do
